@@ -10,6 +10,8 @@ from .c06 import base_inputs, surfaces_for, RG
 # yshift: a full-span surface lying wholly on one side of y = 0 (the code's left/right test reads the option mesh)
 CF = [dict(nx=2, ny=3, symmetry=True, side="left", nsurf=1), dict(nx=3, ny=3, symmetry=False, nsurf=1),
       dict(nx=4, ny=3, symmetry=True, side="left", nsurf=1),
+      # the two other node orders of a half model: left half listed root first, right half listed tip first
+      dict(nx=2, ny=3, symmetry=True, side="left", nsurf=1, flip=True), dict(nx=2, ny=3, symmetry=True, side="right", nsurf=1, flip=True),
       dict(nx=2, ny=3, symmetry=False, nsurf=1, yshift=3.0), dict(nx=2, ny=3, symmetry=False, nsurf=1, yshift=-3.0, _tier=T),
       dict(nx=2, ny=2, symmetry=True, side="right", nsurf=2, tail_sym=False),
       dict(nx=2, ny=2, symmetry=True, side="right", nsurf=3), dict(nx=3, ny=3, symmetry=True, side="right", nsurf=1, _tier=T)]
